@@ -67,7 +67,7 @@ std::string History::dump(size_t max_events) const {
     return o.str();
 }
 
-World::World(uint64_t seed) : rng(seed) { cur = this; verif::g_now_ns = 0; }
+World::World(uint64_t seed) : rng(seed), chunk_rng(seed ^ 0x5bd1e995u) { cur = this; verif::g_now_ns = 0; }
 World::~World() { if (cur == this) cur = nullptr; }
 
 vt World::now() const { return verif::g_now_ns; }
@@ -272,7 +272,7 @@ void World::try_complete_read(const ConnPtr& c) {
         for (auto& b : c->p_read->bufs) cap += b.size();
         size_t n = std::min(cap, c->rxbuf.size());
         if (net.chunking == Chunking::bytewise) n = 1;
-        else if (net.chunking == Chunking::random) n = 1 + rng.below(n);
+        else if (net.chunking == Chunking::random) n = 1 + chunk_rng.below(n);
         size_t copied = asio::buffer_copy(c->p_read->bufs, asio::buffer(c->rxbuf.data(), n));
         c->rxbuf.erase(0, copied);
         c->b2c_read += copied;
